@@ -1,3 +1,117 @@
 package main
 
-func cmdSelftest(args []string) int { return exitOK }
+import (
+	"bufio"
+	"bytes"
+	"flag"
+	"fmt"
+	"os"
+	"os/exec"
+	"strings"
+	"sync"
+
+	"github.com/xinchentechnote/fin-proto-go/simrt"
+)
+
+// selftest determinism: the same (seed, run index) must give the same run fingerprint (hash of
+// every tape draw, scheduling decision and oracle observation) in separate processes, at
+// GOMAXPROCS 1, 4 and 16.  A mismatch is an infrastructure error (exit 2): without determinism
+// neither replay nor minimisation can be trusted.
+func cmdSelftest(args []string) int {
+	fs := flag.NewFlagSet("selftest", flag.ExitOnError)
+	propsF := fs.String("props", "", "comma-separated properties (default: all this binary supports)")
+	runs := fs.Uint64("runs", 200, "run indices per property")
+	reps := fs.Int("reps", 2, "repetitions per GOMAXPROCS value")
+	seed := fs.Uint64("seed", envSeed(), "")
+	tier := fs.String("tier", "quick", "")
+	fs.Parse(args)
+	var props []string
+	if *propsF != "" {
+		props = strings.Split(*propsF, ",")
+	} else {
+		for _, k := range sortedKeys(scenarios) {
+			if scenarios[k].Race == simrt.RaceEnabled {
+				props = append(props, k)
+			}
+		}
+	}
+	exe, _ := os.Executable()
+	bad := 0
+	for _, p := range props {
+		sc := getScenario(p)
+		type job struct {
+			gm  string
+			rep int
+		}
+		var jobs []job
+		for _, gm := range []string{"1", "4", "16"} {
+			for r := 0; r < *reps; r++ {
+				jobs = append(jobs, job{gm, r})
+			}
+		}
+		results := make([]map[uint64]string, len(jobs))
+		errs := make([]string, len(jobs))
+		var wg sync.WaitGroup
+		for ji, j := range jobs {
+			wg.Add(1)
+			go func(ji int, j job) {
+				defer wg.Done()
+				cmd := exec.Command(exe, "worker", "-prop", sc.Prop, "-tier", *tier, "-seed", fmt.Sprint(*seed), "-w", "0", "-n", "1", "-count", fmt.Sprint(*runs))
+				env := workerEnv()
+				env = append(env, "GOMAXPROCS="+j.gm)
+				cmd.Env = env
+				var se bytes.Buffer
+				cmd.Stderr = &se
+				out, err := cmd.Output()
+				if err != nil {
+					errs[ji] = fmt.Sprintf("%v: %s", err, tail(se.String(), 500))
+					return
+				}
+				m := map[uint64]string{}
+				sc := bufio.NewScanner(bytes.NewReader(out))
+				sc.Buffer(make([]byte, 1<<20), 1<<26)
+				for sc.Scan() {
+					f := strings.Fields(sc.Text())
+					if len(f) >= 3 && f[0] == "E" {
+						var i uint64
+						fmt.Sscan(f[1], &i)
+						m[i] = f[2] + " " + f[len(f)-1]
+					}
+				}
+				results[ji] = m
+			}(ji, j)
+		}
+		wg.Wait()
+		mism := 0
+		for ji := range jobs {
+			if errs[ji] != "" {
+				fmt.Fprintf(os.Stderr, "selftest %s GOMAXPROCS=%s: %s\n", p, jobs[ji].gm, errs[ji])
+				mism++
+				continue
+			}
+			if len(results[ji]) != int(*runs) {
+				fmt.Fprintf(os.Stderr, "selftest %s GOMAXPROCS=%s: %d of %d runs completed\n", p, jobs[ji].gm, len(results[ji]), *runs)
+				mism++
+				continue
+			}
+			for i, fp := range results[0] {
+				if results[ji][i] != fp {
+					if mism < 5 {
+						fmt.Fprintf(os.Stderr, "selftest %s: run %d fingerprint %s (GOMAXPROCS=%s rep %d) != %s (first execution)\n", p, i, results[ji][i], jobs[ji].gm, jobs[ji].rep, fp)
+					}
+					mism++
+				}
+			}
+		}
+		if mism > 0 {
+			bad++
+			fmt.Printf("selftest determinism %s: FAILED (%d mismatches)\n", p, mism)
+		} else {
+			fmt.Printf("selftest determinism %s: %d runs x %d executions (GOMAXPROCS 1/4/16, separate processes) identical\n", p, *runs, len(jobs))
+		}
+	}
+	if bad > 0 {
+		return exitInfra
+	}
+	return exitOK
+}
